@@ -235,7 +235,7 @@ def body(case, rec):
 
 
 def run(ctx):
-    n = ctx.share(2400 if ctx.quick else 30000)
+    n = ctx.share(12000 if ctx.quick else 96000)
     explore(ctx, cases(12 if ctx.quick else 40), body, n)
     if ctx.k == 0:
         # deterministic corner cases named in the property text
